@@ -187,7 +187,7 @@ class Source:
         header matches header_re (fullmatch on text between 'impl' and '{')."""
         res = []
         for m in re.finditer(r'(?m)^impl\b([^{;]*)\{', self.mask):
-            hdr = ' '.join(self.text[m.start(1):m.end(1)].split())
+            hdr = ' '.join(self.mask[m.start(1):m.end(1)].split())   # comments in the header are ignored
             if re.fullmatch(header_re, hdr):
                 ob = m.end() - 1
                 cb = match_close(self.mask, ob)
